@@ -195,6 +195,12 @@ DlqWrite ==
                  \cup Add(~(Ev.idx \in Rng(st.acked[Ev.src])), "DlqBeforeAck", Ev.tag)
                  \* C08: a failed piece dead-letters the ORIGINAL record (with its original position)
                  \cup Add(Ev.path = <<>>, "DlqOriginal", Ev.tag)
+                 \* C07 / C08 (families in which every cause of a failure is an observable input - a destination's
+                 \* rejection, a processor's error result, or a condition that cannot be evaluated for a record named in
+                 \* the scenario): a record is dead-lettered only for ITS OWN failure, never for another record's
+                 \cup (IF "dlq-justified" \in st.feats
+                        THEN Add((\E x \in st.rej : Origin(x) = Org) \/ ("conderr:" \o Ev.tag) \in st.feats, "DlqJustified", <<Ev.tag, Ev.err>>)
+                        ELSE {})
                  \* the engine dead-letters only what the window policy tolerates
                  \cup (IF WindowWellDefined /\ ~(Org \in Rng(st.dlqW))
                         THEN Add(Tolerated(OutcomesBefore(Ev.src, Ev.idx)), "DlqDecision", Ev.tag)
